@@ -221,7 +221,9 @@ class SecondsTimedeltaProvider(MorphingProvider):
             if type(data) not in ok_types:
                 raise TypeLoadError(Union[int, float, Decimal], data)
             try:
-                return timedelta(seconds=int(data), microseconds=int(data % 1 * 10 ** 6))
+                if type(data) is Decimal:
+                    return timedelta(seconds=int(data), microseconds=int(data % 1 * 10 ** 6))
+                return timedelta(seconds=data)  # exact to the microsecond, also for negative and fractional values
             except (ValueError, ArithmeticError) as e:  # nan, infinity, values out of the timedelta range
                 raise ValueLoadError(str(e), data)
 
